@@ -40,9 +40,9 @@ def state_cover_tests(work, depth, warm=False):
     the printing invariant for nearly every generated successor, so this is one history per explored TRANSITION, not per
     distinct state); de-duplicated, and histories that are a prefix of another one are dropped.
     warm: 1 = start from YuniKorn!InitWarm (a placeholder already allocated; the history starts with the 5 operations that
-    lead there), 2 = InitWarm2 (in addition a smaller real task of the group is waiting), and explore `depth` further operations."""
+    lead there), 2 = InitWarm2 (in addition a smaller real task of the group is waiting), 3 = InitFull (both nodes filled by a plain application: the reservation regime), and explore `depth` further operations."""
     cfg = "MC_YK_emit%s%d.cfg" % ("w%d" % warm if warm else "", depth)
-    base = open(os.path.join(work, {0: "MC_YK_intended.cfg", 1: "MC_YK_warm.cfg", 2: "MC_YK_warm2.cfg"}[int(warm)])).read()
+    base = open(os.path.join(work, {0: "MC_YK_intended.cfg", 1: "MC_YK_warm.cfg", 2: "MC_YK_warm2.cfg", 3: "MC_YK_full.cfg"}[int(warm)])).read()
     total = depth + WARM_PREFIX[int(warm)]
     base = re.sub(r"MaxHist = \d+", "MaxHist = %d" % total, base).replace("INVARIANT TypeOK", "INVARIANT TypeOK\nINVARIANT EmitTest")
     open(os.path.join(work, cfg), "w").write(base)
@@ -61,7 +61,7 @@ def state_cover_tests(work, depth, warm=False):
     return keep, gen, dist
 
 
-WARM_PREFIX = {0: 0, 1: 5, 2: 6}   # operations in the history the (warm) initial state starts with
+WARM_PREFIX = {0: 0, 1: 5, 2: 6, 3: 7}   # operations in the history the (warm) initial state starts with
 
 
 def simulated_tests(work, num, seed, depth=28):
